@@ -264,6 +264,13 @@ theorem C14_empty_collection_is_supplied (h : Hdr) (e : Ty) (fp fa : FT) (v : Va
   · exact (hp (.list []) v (Or.inr (Or.inl ⟨e, rfl⟩))).2.2.2 rfl hv
   · exact (hp v (.list []) (Or.inr (Or.inl ⟨e, rfl⟩))).2.2.2 hv rfl
 
+/-- regenerated (F12ez): ez wraps the file decoder in the alias mangler FIRST and appends the optional tag-reformatting
+mangler (`Params.FileFieldNameEncoder`) after it, so the reformatting pass sees - and rewrites the `dials` tag of - both
+copies of an aliased field: the alias is looked up in the file's naming convention exactly like the primary name. -/
+theorem C14_ez_alias_before_reformat :
+    Facts.ezFileChain.head? = some "alias" ∧ "reformat?" ∈ Facts.ezFileChain.tail := by
+  decide
+
 /-- A field without alias passes its single value through. -/
 theorem C14_single (h : Hdr) (t : Ty) (f : FT) (v : Val) : aliasUnmangle h t [(f, v)] = .ok v := by
   rfl
